@@ -406,6 +406,10 @@ Proof.
   repeat split; field.
 Qed.
 
+(* the JPL helper is always called with its default (literal) secondary voltage *)
+Lemma jpl_default_voltage : jpl_calls_use_default_secondary_voltage = true.
+Proof. reflexivity. Qed.
+
 Lemma sites_ok :
   check_family sites_caltech = true /\ check_family sites_jpl = true /\ check_family sites_office001 = true.
 Proof. repeat split; vm_compute; reflexivity. Qed.
